@@ -43,11 +43,10 @@ fn main() {
 /// 3 x 1 terminal with one member whose frame "AAAA" needs two rows (never fits); println("x");
 /// println("y") must leave the rows "x" and "y" - the implementation leaves ONE row "xy" (the frame
 /// cut by the height leaves the cursor in the middle of a row, the next text-only draw continues
-/// there).  This is the open finding D14 `height-cut-leaves-cursor-mid-row`, registered for C19
-/// (and C04) only; until it is cross-listed for C03 in known_findings.json (not this property's
-/// file) the failure is counted (`unregistered-finding:...`), not reported.  The random histories of
-/// this check use heights 60/200 and practically never reach the cut.
-const REPORT_HEIGHT_CUT_FINDING: bool = false;
+/// there).  This is the open finding D14 `height-cut-leaves-cursor-mid-row` (C19, C04, and
+/// cross-listed for C03: two printed lines merged into one row).  The random histories of this
+/// check use heights 60/200 and practically never reach the cut.
+const REPORT_HEIGHT_CUT_FINDING: bool = true;
 
 fn height_cut_case(s: &mut Session) {
     use indicatif::verif_clock as vc;
